@@ -71,6 +71,8 @@ func (m *ModSets) regMap(mt types.Type) []string {
 // (as opposed to a reference to a heap struct)?
 func isLocValue(v ssa.Value) bool {
 	switch x := v.(type) {
+	case *ssa.Convert:
+		return isLocValue(x.X)
 	case *ssa.FieldAddr, *ssa.IndexAddr, *ssa.Global, *ssa.FreeVar:
 		return true
 	case *ssa.Alloc:
@@ -83,6 +85,13 @@ func isLocValue(v ssa.Value) bool {
 // addrComps: the components a store through address v may hit.
 func (m *ModSets) addrComps(fn *ssa.Function, v ssa.Value) []string {
 	switch x := v.(type) {
+	case *ssa.Convert:
+		if _, ok := x.X.Type().Underlying().(*types.Pointer); ok && isLocValue(x.X) {
+			return m.addrComps(fn, x.X)
+		}
+		if b, ok := x.X.Type().Underlying().(*types.Basic); ok && b.Kind() == types.UnsafePointer {
+			return m.addrComps(fn, x.X)
+		}
 	case *ssa.FieldAddr:
 		if isLocValue(x.X) {
 			return m.addrComps(fn, x.X)
